@@ -168,7 +168,10 @@ pub fn run_split(w: &[&str]) -> String {
                 .map(|k| (k.to_string(), st_b.get_reg(reg_of(k).unwrap()) as u64))
                 .collect();
             let mut st_c = mk_state(&carry, st_b.pc());
-            st_c.set_power_state(st_b.power_state());
+            if !(w.len() > 7 && w[7] == "nh") {
+                // "nh": the low-power flag is NOT carried (the property's state is registers, flags and memory)
+                st_c.set_power_state(st_b.power_state());
+            }
             match steps(&mut st_c, &mut bus_b, m, &mut lb) {
                 Ok(()) => show(&st_c, &bus_b, &lb),
                 Err(e) => e,
